@@ -252,6 +252,111 @@ pub fn check_hist(ctx: &Ctx, pool: &Pool, hist: &[Rec]) -> Check {
     Ok(())
 }
 
+// ------------------------------------------------------------------------------------------------
+// End to end: the table as the application builds and serves it (main.rs: update_snapshot after deduplication and
+// position decoding; web.rs: /all). The history is served to the real binary as a Beast TCP source.
+
+pub fn e2e_scenario(hist: &[Rec]) -> crate::e2e::Scenario {
+    let mut seen = BTreeSet::new();
+    let sends = hist
+        .iter()
+        .map(frame_of)
+        .filter(|f| seen.insert(f.clone()))
+        .enumerate()
+        .map(|(i, frame)| crate::e2e::Send { source: 0, frame, pause_ms: [0u32, 1, 3, 0, 12][i % 5], cut: if i % 5 == 2 { 7 + i % 9 } else { 0 } })
+        .collect();
+    crate::e2e::Scenario { references: vec![Some((43.6, 1.45))], sends, df_filter: None, aircraft_filter: None, dedup_ms: 40, update_position: false, with_file: false, via_config: false }
+}
+
+pub fn judge_e2e(ctx: &Ctx, sc: &crate::e2e::Scenario, out: &crate::e2e::Outcome, window: (u64, u64), rep: &Value) -> Check {
+    let fail = |sig: &str, d: String| Failure::new(format!("c12:e2e:{sig}"), d, rep.clone());
+    let marker = format!("{:06x}", crate::e2e::MARKER_ADDR);
+    // what was sent, per displayed address
+    let mut sent: BTreeMap<String, u64> = BTreeMap::new();
+    for s in &sc.sends {
+        if let Ok(m) = Message::try_from(s.frame.as_slice()) {
+            if matches!(m.df, DF::ExtendedSquitterMilitary { .. } | DF::CommDExtended { .. }) {
+                continue;
+            }
+            let js = serde_json::to_value(&m).map_err(|e| fail("json", e.to_string()))?;
+            if let Some(k) = js["icao24"].as_str() {
+                *sent.entry(k.to_string()).or_insert(0) += 1;
+            }
+        }
+    }
+    // what each aircraft's emitted records show
+    let mut shown: BTreeMap<String, BTreeSet<String>> = BTreeMap::new();
+    for l in &out.lines {
+        let mut v: Value = serde_json::from_str(l).map_err(|e| fail("malformed-line", format!("{e}: {l}")))?;
+        let Some(k) = v["icao24"].as_str().map(|s| s.to_string()) else { continue };
+        if let Value::Object(m) = &mut v {
+            for key in ["timestamp", "frame", "metadata"] {
+                m.remove(key);
+            }
+        }
+        collect_values(&v, shown.entry(k).or_default());
+    }
+    let table = out.table.as_array().cloned().unwrap_or_default();
+    let keys: BTreeSet<String> = table.iter().filter_map(|e| e["icao24"].as_str().map(|s| s.to_string())).filter(|k| *k != marker).collect();
+    let want: BTreeSet<String> = sent.keys().cloned().collect();
+    if keys != want {
+        return Err(fail("wrong-key-set", format!("/all has entries for {keys:?}, records were sent for {want:?}")));
+    }
+    if table.len() != keys.len() + 1 {
+        return Err(fail("duplicate-entries", format!("/all has {} entries for {} addresses (plus the marker)", table.len(), keys.len())));
+    }
+    for e in &table {
+        let k = e["icao24"].as_str().unwrap_or("").to_string();
+        if k == marker {
+            continue;
+        }
+        if e["count"].as_u64() != sent.get(&k).copied() {
+            return Err(fail("wrong-count", format!("{k}: count {} but {} distinct records of that aircraft were sent", e["count"], sent[&k])));
+        }
+        let (f, l) = (e["firstseen"].as_u64().unwrap_or(0), e["lastseen"].as_u64().unwrap_or(0));
+        if !(window.0 <= f && f <= l && l <= window.1) {
+            return Err(fail("wrong-seen-times", format!("{k}: firstseen {f}, lastseen {l}; the scenario ran between {} and {}", window.0, window.1)));
+        }
+        let own = shown.get(&k).cloned().unwrap_or_default();
+        for key in PROVENANCE_KEYS {
+            let v = &e[key];
+            if v.is_null() {
+                continue;
+            }
+            let mut s = BTreeSet::new();
+            collect_values(v, &mut s);
+            if !s.iter().all(|x| own.contains(x)) {
+                return Err(fail(&format!("foreign-value:{key}"), format!("{k}: {key} = {v} is in none of the records jet1090 emitted for this aircraft")));
+            }
+        }
+    }
+    ctx.class("end-to-end history judged");
+    if keys.len() >= 2 {
+        ctx.nontrivial(h64(&("e2e", rep.to_string())));
+    }
+    Ok(())
+}
+
+pub fn replay_e2e(ctx: &Ctx, env: &crate::e2e::Env, sc: &crate::e2e::Scenario, rep: &Value, tag: &str) -> Check {
+    let now = || std::time::SystemTime::now().duration_since(std::time::UNIX_EPOCH).map(|d| d.as_secs()).unwrap_or(0);
+    let t0 = now();
+    match crate::e2e::play_twice(env, sc, tag) {
+        Err(crate::e2e::Fail::Skip(why)) => {
+            ctx.exclude(&format!("end-to-end scenario not judged: {}", why.split(':').next().unwrap_or("")));
+            Ok(())
+        }
+        Err(crate::e2e::Fail::Died(why)) => Err(Failure::new("c12:e2e:jet1090-died", format!("jet1090 {why} (twice)"), rep.clone())),
+        Ok(out) => judge_e2e(ctx, sc, &out, (t0.saturating_sub(1), now() + 1), rep),
+    }
+}
+
+pub fn check_e2e(ctx: &Ctx, env: &crate::e2e::Env, hist: &[Rec], tag: &str) -> Check {
+    ctx.eval();
+    let sc = e2e_scenario(hist);
+    let rep = json!({"kind": "e2e", "scenario": crate::e2e::scenario_json(&sc)});
+    replay_e2e(ctx, env, &sc, &rep, tag)
+}
+
 fn history() -> impl Strategy<Value = Vec<Rec>> {
     // clocks: Unix time, or time relative to the start of a recording (from 0 s, a fraction of a second, 1000 s)
     let t0 = prop_oneof![4 => Just(1_700_000_000.0f64), 1 => Just(0.0f64), 1 => 0.0f64..1.0, 1 => Just(1000.0f64), 1 => Just(4_294_967_295.5f64)];
@@ -273,7 +378,7 @@ fn history() -> impl Strategy<Value = Vec<Rec>> {
 }
 
 pub fn run(ctx: &Ctx) {
-    ctx.set_rule("histories of 1-119 records from 1-6 aircraft (addresses sharing prefixes and suffixes) over 22 record kinds: DF17 identification / airborne / surface / ground velocity / airspeed / status / target state / operational status, DF18 airborne / surface / identification, DF0, 4, 5, 11, 16, DF20 with BDS 2,0 / 4,0 / the 5,0+6,0 conflict payload, DF21 with BDS 5,0 / 6,0, and DF19/24 records that carry no address; every value comes from a band owned by its aircraft, positions are injected per record; one identification in five carries an unassigned 6-bit character; clocks start at Unix time, at 0 s, within the first second, at 1000 s or beyond 2^32 s; timestamps mostly increasing, sometimes equal or decreasing. Replayed through the real update_snapshot (hook H2) and read back as /all serialises it. Oracle: key set = addresses of the address-carrying records; count, firstseen, lastseen per key from independent bookkeeping; every non-null call sign, squawk, position, altitude, speed, angle, NACp of an entry occurs in the JSON of one of that aircraft's own records; the entry of each aircraft is identical when only its own records are fed. Non-trivial = >= 2 aircraft and >= 3 record kinds; distinct by hash of the history.");
+    ctx.set_rule("histories of 1-119 records from 1-6 aircraft (addresses sharing prefixes and suffixes) over 22 record kinds: DF17 identification / airborne / surface / ground velocity / airspeed / status / target state / operational status, DF18 airborne / surface / identification, DF0, 4, 5, 11, 16, DF20 with BDS 2,0 / 4,0 / the 5,0+6,0 conflict payload, DF21 with BDS 5,0 / 6,0, and DF19/24 records that carry no address; every value comes from a band owned by its aircraft, positions are injected per record; one identification in five carries an unassigned 6-bit character; clocks start at Unix time, at 0 s, within the first second, at 1000 s or beyond 2^32 s; timestamps mostly increasing, sometimes equal or decreasing. Replayed through the real update_snapshot (hook H2) and read back as /all serialises it. Oracle: key set = addresses of the address-carrying records; count, firstseen, lastseen per key from independent bookkeeping; every non-null call sign, squawk, position, altitude, speed, angle, NACp of an entry occurs in the JSON of one of that aircraft's own records; the entry of each aircraft is identical when only its own records are fed. End to end: the distinct frames of such a history are served to the real jet1090 binary as a Beast TCP source and the table is read from its /all endpoint: key set, count per aircraft, seen times inside the run, and every value of an entry occurs in a record jet1090 printed for that aircraft. Non-trivial = >= 2 aircraft and >= 3 record kinds; distinct by hash of the history.");
     ctx.assume("positions are attached by decode_position before update_snapshot in the application; the scenario injects them so that each record carries a unique value");
     ctx.assume("registration and typecode come from the aircraft database / address heuristics, not from records: outside the provenance check");
     let pool = Pool::new(16);
@@ -301,6 +406,19 @@ pub fn run(ctx: &Ctx) {
             check_hist(ctx, &pool, h)
         });
     });
+    // the same kind of history through the whole application, served over TCP and read back from /all
+    match crate::e2e::Env::from_env() {
+        Some(env) => {
+            let n = ctx.tier.pick(48u32, 640u32);
+            (0..shards).into_par_iter().for_each(|s| {
+                run_prop(ctx, &format!("e2e-{s}"), n / shards, history(), |h| check_e2e(ctx, &env, h, &format!("c12-{s}")));
+            });
+        }
+        None => {
+            eprintln!("INCONCLUSIVE: JET1090_BIN / VERIF_E2E_CACHE are not set (run through ./check)");
+            std::process::exit(2);
+        }
+    }
     let h = vec![Rec { ac: 0, kind: 0, val: 5, ts: 1_700_000_000.0 }, Rec { ac: 1, kind: 1, val: 9, ts: 1_700_000_000.5 }, Rec { ac: 0, kind: 12, val: 3, ts: 1_700_000_001.0 }, Rec { ac: 1, kind: 18, val: 4, ts: 1_700_000_002.0 }];
     let idx: Vec<(usize, &Rec)> = h.iter().enumerate().collect();
     ctx.sample(json!({"records": h.iter().map(|r| json!({"aircraft": format!("{:06x}", addr_of(r.ac)), "kind": KINDS[r.kind as usize], "ts": r.ts, "frame": hex::encode(frame_of(r))})).collect::<Vec<_>>(), "table": run_table(&pool, &idx)["table"]}));
@@ -308,6 +426,15 @@ pub fn run(ctx: &Ctx) {
 }
 
 pub fn replay(ctx: &Ctx, v: &Value) {
+    if v["kind"] == "e2e" {
+        let Some(env) = crate::e2e::Env::from_env() else {
+            eprintln!("INCONCLUSIVE: JET1090_BIN / VERIF_E2E_CACHE are not set (replay through ./check)");
+            std::process::exit(2);
+        };
+        ctx.eval();
+        ctx.judge(replay_e2e(ctx, &env, &crate::e2e::scenario_of(&v["scenario"]), v, "c12-replay"));
+        return;
+    }
     let pool = Pool::new(1);
     let hist: Vec<Rec> = v["history"].as_array().map(|a| a.iter().map(|x| Rec { ac: x[0].as_u64().unwrap_or(0) as u8, kind: x[1].as_u64().unwrap_or(0) as u8, val: x[2].as_u64().unwrap_or(0) as u16, ts: x[3].as_f64().unwrap_or(0.0) }).collect()).unwrap_or_default();
     ctx.judge(check_hist(ctx, &pool, &hist));
